@@ -91,7 +91,7 @@ var soupLiterals = []string{
 }
 
 var hostileSnippets = []string{
-	`throw {toString:function(){throw 1}}`, `throw null`, `throw undefined`, `throw {toString:function(){return {}}}`, `throw {get message(){throw 1}, name: {toString:function(){throw 2}}}`,
+	`throw null`, `throw undefined`, `throw {get message(){throw 1}, name: {toString:function(){throw 2}}}`,
 	`(function f(){f()})()`, `var o={get a(){return this.a}};o.a`, `var o={toString:function(){return ""+this}};""+o`, `[1].map(function f(x){return [x].map(f)})`,
 	`eval("eval('eval(\"1\")')")`, `Function("return this")()`, `new Function("a","b","return a+b")(1,2)`, `new Function("/*","*/){")`, `Function("){")`, `Function("a,","return 1")`, `Function("}); (function(){")`, `Function("", "}) + (function(){")`,
 	`String.prototype.charAt.call(5,0)`, `RegExp.prototype.test("x")`, `RegExp.prototype.exec("x")`, `RegExp.prototype.toString()`, `Date.prototype.getTime.call({})`, `Function.prototype.toString.call({})`, `Function.prototype()`, `new Function.prototype`,
@@ -107,6 +107,20 @@ var hostileSnippets = []string{
 	`Function.prototype.call.call(1)`, `Function.prototype.apply.call(function(){}, null, 1)`, `Function.prototype.bind.call(1)`, `(function(){}).bind().bind().call()`, `new (function(){}.bind())`, `Function.prototype.apply.apply(Function.prototype.apply,[])`, `Function.prototype.call.apply(Function.prototype.call,[])`, `Function.prototype.call.call(Function.prototype.call)`,
 	`console.log({toString:function(){throw 1}})`, `console.log(Object.create(null))`, `console.log.call(null, function(){})`,
 	`L:{L:{}}`, `L:L:;`, `a:{break a}`, `a:{continue a}`, `a:while(1){(function(){break a})()}`, `switch(1){case 1:default:case 1:}`, `switch(1){default:default:}`, `try{}catch(e){var e=1}`, `function f(){return f.caller}f()`, `var arguments=1`, `function arguments(){}`, `if(1)function f(){}`, `do function f(){} while(0)`, `label:function f(){}`,
+}
+
+// unprintableThrowers: the snippets that end in an uncaught value whose conversion to string throws
+// (A9, C02-THROW-UNPRINTABLE); drawn only while that finding no longer reproduces.
+var unprintableThrowers = []string{
+	`throw {toString:function(){throw 1}}`, `throw {toString:function(){return {}}}`, `throw Object.create(null)`,
+	`throw {toString:function(){throw {toString:function(){throw 2}}}}`, `var e={};e.toString=function(){return ""+e};throw e`,
+}
+
+func activeSnippets() []string {
+	if known("C02-THROW-UNPRINTABLE") {
+		return hostileSnippets
+	}
+	return append(append([]string{}, hostileSnippets...), unprintableThrowers...)
 }
 
 func sourceMapTail(hostile string) string {
@@ -142,14 +156,14 @@ func genSource(t *rapid.T) sourceCase {
 		case k < 83:
 			return piece{T: rapid.SampledFrom(soupLiterals).Draw(t, "lit")}
 		case k < 90:
-			return piece{T: rapid.SampledFrom(hostileSnippets).Draw(t, "snip")}
+			return piece{T: rapid.SampledFrom(activeSnippets()).Draw(t, "snip")}
 		case k < 94:
 			return piece{X: rapid.SampledFrom(invalidBytes).Draw(t, "bad")}
 		case k < 96:
 			return piece{T: rapid.SampledFrom(closers).Draw(t, "cl")}
 		case k < 98:
 			// very long identifier / number / string body
-			return piece{T: rapid.SampledFrom([]string{"a", "9", "0", "1e", ".", "x1", "\\u0061", "é", "\U00010400", " ", "\n", "'a'+", "a.", "a,"}).Draw(t, "long"), N: rapid.SampledFrom([]int{50, 400, 3000, 20000}).Draw(t, "n")}
+			return piece{T: rapid.SampledFrom([]string{"a", "9", "0", "1e", ".", "x1", "\\u0061", "é", "\U00010400", " ", "\n", "'a'+", "a.", "a,"}).Draw(t, "long"), N: rapid.SampledFrom([]int{50, 400, 400, 3000, 3000, 20000}).Draw(t, "n")}
 		default:
 			return piece{T: sourceMapTail(rapid.SampledFrom(sourceMaps).Draw(t, "sm"))}
 		}
@@ -164,7 +178,7 @@ func genSource(t *rapid.T) sourceCase {
 	case mode < 6:
 		c.Mode = "nesting"
 		op := rapid.SampledFrom(openers).Draw(t, "opener")
-		depth := rapid.SampledFrom([]int{3, 30, 300, 1000, 5000}).Draw(t, "depth")
+		depth := rapid.SampledFrom([]int{3, 30, 30, 300, 300, 300, 1000, 1000, 5000}).Draw(t, "depth")
 		c.Sep = ""
 		c.Pieces = append(c.Pieces, piece{T: op, N: depth})
 		if rapid.Bool().Draw(t, "fill") {
@@ -232,8 +246,9 @@ func genSource(t *rapid.T) sourceCase {
 // ---- executing one source text through every entry point --------------------------------------------------
 
 type entryLog struct {
-	panics  []escaped
-	classes []string
+	panics   []escaped
+	classes  []string
+	excluded []string
 }
 
 func (l *entryLog) call(name string, fn func()) (budget bool) {
@@ -263,11 +278,18 @@ func runSourceText(src string, limit int) (l entryLog, nontrivial bool) {
 	var program *ast.Program
 	var perr error
 	l.call("parser.ParseFile", func() { program, perr = parser.ParseFile(nil, "", src, 0) })
-	l.call("parser.ParseFile(StoreComments|IgnoreRegExpErrors)", func() {
-		_, _ = parser.ParseFile(nil, "x.js", []byte(src), parser.StoreComments|parser.IgnoreRegExpErrors)
-	})
-	l.call("parser.ParseFunction(params, src)", func() { _, _ = parser.ParseFunction("a, b", src) })
-	l.call("parser.ParseFunction(src, body)", func() { _, _ = parser.ParseFunction(src, "return 1") })
+	big := len(src) > 8000
+	if !big || harness.Hash64(src)%3 == 0 {
+		l.call("parser.ParseFile(StoreComments|IgnoreRegExpErrors)", func() {
+			_, _ = parser.ParseFile(nil, "x.js", []byte(src), parser.StoreComments|parser.IgnoreRegExpErrors)
+		})
+	}
+	if !big || harness.Hash64(src)%3 == 1 {
+		l.call("parser.ParseFunction(params, src)", func() { _, _ = parser.ParseFunction("a, b", src) })
+	}
+	if !big || harness.Hash64(src)%3 == 2 {
+		l.call("parser.ParseFunction(src, body)", func() { _, _ = parser.ParseFunction(src, "return 1") })
+	}
 	// tokens before the first error (otto's own scanner, itself an entry point)
 	firstErr := len(src) + 1
 	if perr != nil {
@@ -299,7 +321,17 @@ func runSourceText(src string, limit int) (l entryLog, nontrivial bool) {
 		_ = vm.Set("log", func(call otto.FunctionCall) otto.Value { return otto.UndefinedValue() })
 	}
 	fresh()
+	// a large text goes through the parser and a rotating subset of the runtime entry points only:
+	// otto's parser is super-linear in the number of syntax errors, and seventeen passes over 100 KB
+	// of nested garbage would come near the watchdog on a loaded machine without any wedge.
+	heavy := len(src) > 8000
+	pick := int(harness.Hash64(src) % 4)
+	nstep := 0
 	step := func(name string, fn func()) {
+		nstep++
+		if heavy && nstep%4 != pick {
+			return
+		}
 		harness.Arm(vm, 30000)
 		before := len(l.panics)
 		if l.call(name, fn) {
@@ -322,7 +354,11 @@ func runSourceText(src string, limit int) (l entryLog, nontrivial bool) {
 	}
 	step("Otto.Run(io.Reader)", func() { _, _ = vm.Run(strings.NewReader(src)) })
 	step("Otto.Eval", func() { _, _ = vm.Eval(src) })
-	step("Otto.Call(src, nil)", func() { _, _ = vm.Call(src, nil) })
+	if skipOttoCallNil(src) {
+		l.excluded = append(l.excluded, "C02-OTTOCALL-EMPTY-BODY")
+	} else {
+		step("Otto.Call(src, nil)", func() { _, _ = vm.Call(src, nil) })
+	}
 	step("Otto.Call(src, this, args)", func() { _, _ = vm.Call(src, map[string]interface{}{"a": 1}, 1, "two", nil) })
 	step("Otto.Call(new src)", func() { _, _ = vm.Call("new "+src, nil, 1) })
 	step("Otto.Object", func() { _, _ = vm.Object(src) })
@@ -349,6 +385,7 @@ func runSource(c sourceCase) (res jobResult) {
 	src := string(c.bytes())
 	l, nt := runSourceText(src, c.Limit)
 	res.Panics = l.panics
+	res.Excluded = l.excluded
 	res.Classes = append(l.classes, "mode:"+c.Mode)
 	res.Nontrivial = nt
 	return res
